@@ -360,7 +360,7 @@ def forced_cases(seed, n):
         return ("Object", [(k, g.rt(depth, [])) for k in keys], [])
 
     for i in range(n):
-        kind = i % 8
+        kind = i % 9
         env = []
         if kind == 0:
             # a declared property whose value also matches an index signature with a *narrower* value type
@@ -400,6 +400,18 @@ def forced_cases(seed, n):
             env = [("L", ("Object", [("v", g.leaf()), ("next", ("AnyOf", [("Ref", "L"), ("Nullish", "null")]))], [])),
                    ("T", ("Object", [("kids", ("Array", ("Ref", "T"))), ("tag", ("Optional", g.leaf()))], []))]
             rt = r.choice([("Ref", "L"), ("Ref", "T"), ("Object", [("l", ("Ref", "L")), ("t", ("Ref", "T"))], [])])
+        elif kind == 8:
+            # an intersection of closed objects sharing a key whose types differ only in the order of array-like parts
+            a, b = r.sample([("Typeof", "string"), ("Typeof", "number"), ("Typeof", "boolean"), ("Const", "x"),
+                             ("AnyOf", [("Typeof", "string"), ("Typeof", "number")])], 2)
+            k = r.choice(["pair", "a", "kind"])
+            left = ("Object", [("id", ("Typeof", "string")), (k, ("Tuple", [a, b], None))], [])
+            right = ("Object", [("id", ("Typeof", "string")), (k, ("Tuple", [b, a], None))], [])
+            if r.random() < 0.5:
+                env = [("Left", left), ("Right", right)]
+                rt = ("AllOf", [("Ref", "Left"), ("Ref", "Right")])
+            else:
+                rt = ("AllOf", [left, right])
         else:
             # Map / Set / records of unions
             rt = r.choice([("Map", ("Typeof", "string"), ("AnyOf", [g.leaf(), g.leaf()])), ("Set", ("AnyOf", [g.leaf(), g.leaf()])),
